@@ -111,4 +111,15 @@ func genDisk(out string) {
 		return strings.Join(xs, "; ")
 	}())
 	writeIfChanged(filepath.Join(out, "DiskSrc.v"), w.Bytes())
+
+	// the casblob reader/writer functions in full (statement ORDER matters there: the chunk table is
+	// finalised only after the data is written, the trailing data ruled out and the hash verified)
+	cb := loadPkg("cache/disk/casblob")
+	var w2 bytes.Buffer
+	w2.WriteString(header)
+	for _, it := range []item{{cb, "", "readHeader"}, {cb, "", "ExtractLogicalSize"}, {cb, "", "GetUncompressedReadCloser"},
+		{cb, "", "GetZstdReadCloser"}, {cb, "", "GetLegacyZstdReadCloser"}, {cb, "header", "write"}, {cb, "", "WriteAndClose"}} {
+		fmt.Fprintf(&w2, "Definition src_casblob_%s%s : string := %s.\n", it.recv, it.name, coqString(it.p.funcSource(it.recv, it.name)))
+	}
+	writeIfChanged(filepath.Join(out, "CasblobText.v"), w2.Bytes())
 }
